@@ -193,14 +193,18 @@ def native_show(seed, tier):
         "CylinderSegment": lambda: magpy.magnet.CylinderSegment(dimension=(1, 2, 1.5, 20, 250), polarization=(0, 0, 1)),
         "Sphere": lambda: magpy.magnet.Sphere(diameter=1.6, polarization=(0, 0, 1)),
         "Tetrahedron": lambda: magpy.magnet.Tetrahedron(vertices=[(0, 0, 0), (1, 0, 0), (0, 1, 0), (.2, .3, 1)], polarization=(0, 0, 1)),
+        "Tetrahedron(left-handed vertex order)": lambda: magpy.magnet.Tetrahedron(vertices=[(0, 0, 0), (1, 0, 0), (.2, .3, 1), (0, 1, 0)], polarization=(0, 0, 1)),
         "TriangularMesh": lambda: magpy.magnet.TriangularMesh.from_ConvexHull(points=pts, polarization=(0, 0, 1)),
         "Triangle": lambda: magpy.misc.Triangle(vertices=[(0, 0, 0), (1, 0, 0), (0, 1, .3)], polarization=(0, 0, 1)),
         "Polyline": lambda: magpy.current.Polyline(vertices=[(0, 0, 0), (1, 0, 0), (1, 1, .5), (2, 1, 1)], current=1.5),
         "Circle": lambda: magpy.current.Circle(diameter=1.4, current=1.5),
     }
     bad, n = [], 0
-    for cname, unit, m, in_col in itertools.product(mk, ("m", "mm"), (1, 3), (False, True)):
-        o = mk[cname]()
+    for cname0, unit, m, in_col, beyond in itertools.product(mk, ("m", "mm"), (1, 3), (False, True), (False, True)):
+        if beyond and (m == 1 or unit == "mm"):
+            continue
+        cname = cname0.split("(")[0]
+        o = mk[cname0]()
         o._position = rng.normal(size=(m, 3)) * 2
         o._orientation = R.from_rotvec(rng.normal(size=(m, 3)))
         objs = [o]
@@ -210,10 +214,15 @@ def native_show(seed, tier):
             objs.append(col)
             shown = col
         frames = list(range(m))
+        shown_idx = set(range(m))
+        if beyond:
+            # a frame selection that reaches beyond the end of this object's path: the object stays at its last pose
+            frames = [0, m + 3]
+            shown_idx = {0, m - 1}
         fac = {"m": 1.0, "mm": 1000.0}[unit]
         before = snapshot(objs)
         n += 1
-        case = dict(cls=cname, unit=unit, path=m, in_collection=in_col)
+        case = dict(cls=cname0, unit=unit, path=m, in_collection=in_col, frames=frames)
         try:
             extra = {"style_orientation_show": False} if cname in ("Triangle", "TriangularMesh") else {}
             fig = magpy.show(shown, backend="plotly", return_fig=True, style_path_frames=frames, units_length=unit, style_magnetization_show=False, **extra)
@@ -247,9 +256,12 @@ def native_show(seed, tier):
                     off += 1
             if off:
                 bad.append((case, f"{off} of {len(V)} drawn vertices do not lie on the object's surface at any displayed path index"))
+            drawn_idx = {k for k in range(m) if assigned[k]}
+            if cname != "Sphere" and drawn_idx != shown_idx:
+                bad.append((case, f"the model is drawn at path indices {sorted(drawn_idx)}, the frame selection {frames} prescribes {sorted(shown_idx)}"))
             ext = extent(cname, o)
             if ext is not None:
-                for k in range(m):
+                for k in sorted(shown_idx):
                     if not assigned[k]:
                         bad.append((case, f"no drawn vertex at path index {k}"))
                         continue
@@ -260,7 +272,7 @@ def native_show(seed, tier):
         if cname == "Polyline":
             P = np.concatenate([np.c_[t.x, t.y, t.z] for t in scat if t.x is not None]).astype(float) / fac
             P = P[np.isfinite(P).all(axis=1)]
-            for k in range(m):
+            for k in sorted(shown_idx):
                 for v in np.asarray(o.vertices):
                     g = o._orientation[k].apply(v) + o._position[k]
                     if np.min(np.linalg.norm(P - g, axis=1)) > 1e-6:
@@ -278,7 +290,7 @@ def native_show(seed, tier):
                         break
             if good < 0.7 * len(P):
                 bad.append((case, f"only {good} of {len(P)} drawn points lie on the loop"))
-        if m > 1:
+        if m > 1 and not beyond:
             P = [np.c_[t.x, t.y, t.z].astype(float) / fac for t in scat if t.x is not None and len(t.x) == m]
             okp = any(np.allclose(p_, o._position, atol=1e-6) for p_ in P)
             if not okp:
